@@ -157,6 +157,8 @@ fn check(prop: &Property, tier: Tier) -> i32 {
     // 1. regression tier: committed reproductions of repaired defects must pass
     let regress_dir = root.join("regress").join(prop.id);
     let mut regress_count = 0u64;
+    // VERIF_NO_REGRESS=1 is used by the sensitivity experiments only (is the generator able to find it by itself?)
+    if std::env::var("VERIF_NO_REGRESS").is_err() {
     if let Ok(rd) = std::fs::read_dir(&regress_dir) {
         let mut files: Vec<PathBuf> = rd.filter_map(|e| e.ok().map(|e| e.path())).filter(|p| p.extension().map_or(false, |x| x == "json")).collect();
         files.sort();
@@ -168,6 +170,7 @@ fn check(prop: &Property, tier: Tier) -> i32 {
                 _ => harness_errors.push(format!("regress file {} unusable", f.display())),
             }
         }
+    }
     }
 
     // 2. shards
@@ -318,6 +321,29 @@ fn check(prop: &Property, tier: Tier) -> i32 {
         }
     }
 
+    // 4. thorough tier: coverage-guided deepening of the byte-level / board-level oracles
+    let mut fuzz_json = Value::Null;
+    if tier == Tier::Thorough && violations.is_empty() && std::env::var("VERIF_NO_FUZZ").is_err() {
+        if let Some(target) = props::fuzz_target_of(prop.id) {
+            match run_fuzz(prop, target, seed) {
+                Ok((runs, secs, None)) => fuzz_json = json!({"target": target, "engine": "libFuzzer (cargo-fuzz, -fork)", "executions": runs, "seconds": secs, "crashes": 0}),
+                Ok((runs, secs, Some(bytes))) => {
+                    fuzz_json = json!({"target": target, "executions": runs, "seconds": secs, "crashes": 1});
+                    let case = props::FuzzCase { target: target.to_string(), bytes_hex: props::hex(&bytes) };
+                    let mut scratch = run::Ctx::new();
+                    let msg = match run::guarded(&case, || props::check_fuzz_case(&case, &mut scratch)) {
+                        Err(m) => m,
+                        Ok(()) => "libFuzzer reported a crash that does not reproduce in-process (sanitizer finding?)".to_string(),
+                    };
+                    let v = Violation { part: format!("fuzz_corpus_{target}"), message: msg, case: serde_json::to_value(&case).unwrap_or(Value::Null), harness_error: false };
+                    let path = write_replay(prop, seed, &v);
+                    violations.push((path, v.message));
+                }
+                Err(e) => harness_errors.push(format!("fuzz stage: {e}")),
+            }
+        }
+    }
+
     let exhaustive_all = !per_part.is_empty() && per_part.values().all(|p| p.2 || p.3) && per_part.values().any(|p| p.2);
     let parts_json: BTreeMap<String, Value> = per_part.iter().map(|(k, v)| (k.clone(), json!({"evaluations": v.0, "distinct_nontrivial": v.1.len(), "exhaustive": v.2, "supplementary_sampling": v.3}))).collect();
     let wall = t0.elapsed().as_secs_f64();
@@ -338,6 +364,7 @@ fn check(prop: &Property, tier: Tier) -> i32 {
             "shards": nshards,
             "known_findings_reported": known_lines.iter().collect::<Vec<_>>(),
             "notes": notes.iter().collect::<Vec<_>>(),
+            "fuzz": fuzz_json,
         },
         "assumptions": prop.assumptions,
         "wall_s": wall,
@@ -364,4 +391,69 @@ fn check(prop: &Property, tier: Tier) -> i32 {
     }
     println!("{} {}: held on {} evaluations ({} distinct non-trivial), {:.1}s", prop.id, tier.name(), evaluations, nontrivial.len(), wall);
     0
+}
+
+/// Runs the libFuzzer target for a bounded time on a fresh copy of the committed corpus.
+/// Ok((executions, seconds, Some(crashing input))) when libFuzzer stopped on a crash.
+fn run_fuzz(prop: &Property, target: &str, seed: u64) -> Result<(u64, f64, Option<Vec<u8>>), String> {
+    let root = verif_root();
+    let work = root.join("out").join(format!(".fuzz-{}-{}", prop.id, std::process::id()));
+    let corpus = work.join("corpus");
+    let artifacts = work.join("artifacts");
+    std::fs::create_dir_all(&corpus).map_err(|e| e.to_string())?;
+    std::fs::create_dir_all(&artifacts).map_err(|e| e.to_string())?;
+    if let Ok(rd) = std::fs::read_dir(root.join("corpus").join(target)) {
+        for e in rd.flatten() {
+            let _ = std::fs::copy(e.path(), corpus.join(e.file_name()));
+        }
+    }
+    let harness = root.join("harness");
+    if !harness.join("fuzz/Cargo.lock").exists() {
+        let _ = std::fs::copy(harness.join("Cargo.lock"), harness.join("fuzz/Cargo.lock"));
+    }
+    let secs: u64 = std::env::var("VERIF_FUZZ_SECONDS").ok().and_then(|s| s.parse().ok()).unwrap_or(240);
+    let t0 = Instant::now();
+    let out = Command::new("cargo")
+        .current_dir(&harness)
+        .env("CARGO_NET_OFFLINE", "true")
+        .env("RUSTFLAGS", "--cfg inkayaku_verif")
+        .args(["+nightly", "fuzz", "run", "--fuzz-dir", "fuzz", target])
+        .arg(&corpus)
+        .arg("--")
+        .arg(format!("-seed={}", if seed == 0 { 1 } else { seed % 4_000_000_000 }))
+        .arg(format!("-max_total_time={secs}"))
+        .arg("-fork=12")
+        .arg("-len_control=0")
+        .arg("-max_len=2048")
+        .arg("-timeout=30")
+        .arg(format!("-artifact_prefix={}/", artifacts.display()))
+        .stdin(Stdio::null())
+        .output()
+        .map_err(|e| format!("cannot start cargo fuzz: {e}"))?;
+    let log = String::from_utf8_lossy(&out.stderr).to_string();
+    let _ = std::fs::write(root.join("out").join(format!("fuzz-{}.log", prop.id)), &log);
+    let mut runs = 0u64;
+    for line in log.lines() {
+        if let Some(rest) = line.strip_prefix('#') {
+            if let Some(n) = rest.split(|c: char| !c.is_ascii_digit()).next().and_then(|x| x.parse::<u64>().ok()) {
+                runs = runs.max(n);
+            }
+        }
+    }
+    let elapsed = t0.elapsed().as_secs_f64();
+    let mut crash: Option<Vec<u8>> = None;
+    if let Ok(rd) = std::fs::read_dir(&artifacts) {
+        let mut files: Vec<PathBuf> = rd.flatten().map(|e| e.path()).filter(|p| p.file_name().map_or(false, |n| { let n = n.to_string_lossy(); n.starts_with("crash-") || n.starts_with("oom-") || n.starts_with("timeout-") })).collect();
+        files.sort();
+        // timeouts / ooms are inconclusive, only crashes are findings
+        if let Some(f) = files.iter().find(|p| p.file_name().map_or(false, |n| n.to_string_lossy().starts_with("crash-"))) {
+            crash = std::fs::read(f).ok();
+        }
+    }
+    let _ = std::fs::remove_dir_all(&work);
+    if crash.is_none() && !out.status.success() {
+        let tail: Vec<&str> = log.lines().rev().take(6).collect();
+        return Err(format!("cargo fuzz ended with {} without a crash artefact: {:?}", out.status, tail));
+    }
+    Ok((runs, elapsed, crash))
 }
